@@ -10,7 +10,7 @@
    Where a statement needs the digest to be collision-free this is an explicit
    premise of that clause. *)
 From Coq Require Import Sorting.Permutation.
-From Oras Require Import Base.Prelude Base.Regex Base.StrCheck Generated.GC19 Model.Pack Proofs.Pack Proofs.PackTime.
+From Oras Require Import Base.Prelude Base.Regex Base.StrCheck Generated.GC19 Model.Pack Proofs.Pack Proofs.PackTime Proofs.PackJson.
 
 (* The media-type check accepts exactly RFC 6838 section 4.2:
    restricted-name "/" restricted-name, each 1..127 characters. *)
@@ -57,7 +57,8 @@ Proof. exact ok_not_rejected. Qed.
 Print Assumptions C19_ok_not_rejected.
 
 (* A created annotation that time.Parse(RFC3339) refuses: the call fails (with
-   ErrInvalidDateTimeFormat unless it was rejected earlier or a storage fault was injected),
+   ErrInvalidDateTimeFormat unless it was rejected earlier, a storage fault was injected or the target is a
+   file store, which may refuse a titled config first),
    every storage operation concerned the blob "{}" (no manifest push), and the store gained
    at most entries whose content is "{}". *)
 Theorem C19_bad_created_no_manifest :
@@ -65,7 +66,7 @@ Theorem C19_bad_created_no_manifest :
   forall f tc fa s at_ o now s' r v,
     ann_get (created_key f) (o_ann o) = Some v -> rfc3339_ok v = false ->
     pack marshal H f tc fa s at_ o now = (s', r) ->
-    (exists e, r = Err e /\ (must_reject f at_ o = false -> fa = None -> e = EInvalidDateTime)) /\
+    (exists e, r = Err e /\ (must_reject f at_ o = false -> fa = None -> t_key tc <> KFile -> e = EInvalidDateTime)) /\
     (exists evs, steps s s' evs /\ Forall (blob_ev H) evs) /\
     only_empty_blob_added H (s_store s) (s_store s').
 Proof. exact bad_created_no_manifest. Qed.
@@ -91,6 +92,24 @@ Theorem C19_created_validation_is_strict :
 Proof. exact rfc3339_ok_is_strict. Qed.
 Print Assumptions C19_created_validation_is_strict.
 
+(* Go panics on an index out of range; the model's [nth] would answer 0.  On every string time.Parse
+   accepts, every index the three checks evaluate (in Go's order, short-circuits included) is in range. *)
+Theorem C19_strict_checks_in_range :
+  forall s, rfc3339_gen false s = true -> switch_safe s expected_strict_checks = true.
+Proof. exact strict_checks_in_range. Qed.
+Print Assumptions C19_strict_checks_in_range.
+
+(* The calendar that recogniser and grammar share, read independently: the month table, the
+   Gregorian leap rule, 365/366 days a year. *)
+Theorem C19_calendar :
+  (forall m y, 1 <= m <= 12 ->
+     days_in m y = nth (N.to_nat m - 1) month_table 0 + (if (m =? 2) && is_leap y then 1 else 0)) /\
+  (forall y, is_leap y = true <-> (y mod 4 = 0 /\ (y mod 100 <> 0 \/ y mod 400 = 0))) /\
+  (forall y, days_in 1 y + days_in 2 y + days_in 3 y + days_in 4 y + days_in 5 y + days_in 6 y + days_in 7 y +
+             days_in 8 y + days_in 9 y + days_in 10 y + days_in 11 y + days_in 12 y = if is_leap y then 366 else 365).
+Proof. exact (conj days_in_table (conj is_leap_gregorian year_length)). Qed.
+Print Assumptions C19_calendar.
+
 (* ... hence refuses everything that is not an RFC 3339 date-time ... *)
 Theorem C19_malformed_created_refused :
   forall s, ~ RFC3339 s -> rfc3339_ok s = false.
@@ -103,7 +122,7 @@ Theorem C19_malformed_created_no_manifest :
   forall f tc fa s at_ o now s' r v,
     ann_get (created_key f) (o_ann o) = Some v -> ~ RFC3339 v ->
     pack marshal H f tc fa s at_ o now = (s', r) ->
-    (exists e, r = Err e /\ (must_reject f at_ o = false -> fa = None -> e = EInvalidDateTime)) /\
+    (exists e, r = Err e /\ (must_reject f at_ o = false -> fa = None -> t_key tc <> KFile -> e = EInvalidDateTime)) /\
     (exists evs, steps s s' evs /\ Forall (blob_ev H) evs) /\
     only_empty_blob_added H (s_store s) (s_store s').
 Proof. exact malformed_created_no_manifest. Qed.
@@ -134,6 +153,65 @@ Theorem C19_consistent :
       Forall (fun x => stored (t_key tc) (s_store s') x = true) (invented H f at_ o).
 Proof. exact ok_consistent. Qed.
 Print Assumptions C19_consistent.
+
+(* What can be read back.  json_roundtrip is the named premise about encoding/json: decoding the
+   marshalled document gives it back with every string coerced to valid UTF-8 (utf8_san, executable,
+   compared with encoding/json on every run).  The bytes stored under the returned descriptor decode
+   to san_manifest of the requested manifest -- to the requested manifest itself exactly when its
+   strings are valid UTF-8 (clean_manifest). *)
+Theorem C19_stored_parses :
+  forall (marshal : manifest -> str) (H : str -> str) (unmarshal : str -> option manifest),
+    H empty_json = empty_json_digest -> (forall x y, H x = H y -> x = y) ->
+    (forall m, unmarshal (marshal m) = Some (san_manifest m)) ->
+  forall f tc fa s at_ o now s' d m,
+    wf_store H (s_store s) ->
+    pack marshal H f tc fa s at_ o now = (s', Ok d m) ->
+    exists e, In e (s_store s') /\ same_key (t_key tc) d e = true /\
+              unmarshal (e_bytes e) = Some (san_manifest m) /\
+              (clean_manifest m -> unmarshal (e_bytes e) = Some m) /\
+              (forall m', unmarshal (e_bytes e) = Some m' -> kind_mt (m_kind m') = d_mt d).
+Proof. exact stored_parses. Qed.
+Print Assumptions C19_stored_parses.
+
+(* the media types PackManifest validated survive json.Marshal unchanged (they are ASCII) *)
+Theorem C19_packmanifest_media_types_clean :
+  forall (marshal : manifest -> str) (H : str -> str), H empty_json = empty_json_digest ->
+  forall f tc fa s at_ o now s' d m,
+    f = FV10 \/ f = FV11 ->
+    pack marshal H f tc fa s at_ o now = (s', Ok d m) ->
+    utf8_clean (m_at m) /\ forall c, m_config m = Some c -> utf8_clean (d_mt c).
+Proof. exact pack_manifest_media_types_clean. Qed.
+Print Assumptions C19_packmanifest_media_types_clean.
+
+(* Known finding non-utf8-lossy: with a string that is not valid UTF-8 the clauses "exactly the
+   requested ones" and "can be copied" fail.  Witness: Pack (rc2) with config media type a\xff/b on
+   a memory target succeeds, the pushed config blob is keyed by the raw media type, the config
+   descriptor of the manifest that is read back is not in the target. *)
+Theorem C19_lossy_json_refuted :
+  exists at_ o s' d m c,
+    pack lossy_marshal lossy_H FRC2 (mkTcfg true KFull) None (init_state []) at_ o [50] = (s', Ok d m) /\
+    m_config (san_manifest m) = Some c /\
+    stored KFull (s_store s') c = false /\
+    (exists c0, m_config m = Some c0 /\ stored KFull (s_store s') c0 = true).
+Proof. exact lossy_json_refuted. Qed.
+Print Assumptions C19_lossy_json_refuted.
+
+(* Deviation from the property text: the rejection clauses hold for PackManifest only.  Pack
+   (deprecated) validates nothing -- C19_reject_before_push is vacuous for it -- and succeeds with a
+   media type that violates RFC 6838. *)
+Theorem C19_pack_rejects_nothing_deviation :
+  forall at_ o, must_reject FRC2 at_ o = false /\ must_reject FArtifact at_ o = false.
+Proof. exact pack_rejects_nothing. Qed.
+Print Assumptions C19_pack_rejects_nothing_deviation.
+
+Theorem C19_pack_accepts_invalid_media_type_deviation :
+  exists at_ o s' d m c,
+    ~ RFC6838 at_ /\
+    pack lossy_marshal lossy_H FRC2 (mkTcfg true KFull) None (init_state []) at_ o [50] = (s', Ok d m) /\
+    m_config m = Some c /\ d_mt c = at_ /\ d_at d = at_ /\
+    In (EvPush RBlob c empty_json) (s_events s').
+Proof. exact pack_accepts_invalid_media_type. Qed.
+Print Assumptions C19_pack_accepts_invalid_media_type_deviation.
 
 (* The created annotation of the result exists and parses (the caller's value, or the clock's
    when the caller gave none); all other annotations are the caller's; the descriptor carries
@@ -233,7 +311,7 @@ Print Assumptions C19_annotation_order_independent.
 (* ---------- the hypotheses are satisfiable, the statements are not vacuous ---------- *)
 
 (* a digest function with H "{}" = the image-spec constant, and collision-free *)
-Definition toyH (s : str) : str := if str_eqb s empty_json then empty_json_digest else 120 :: s.
+Definition toyH : str -> str := lossy_H.
 Definition toy_marshal (m : manifest) : str :=
   b "manifest:" ++ m_at m ++ concat (map (fun kv => fst kv ++ snd kv) (m_ann m)).
 
@@ -241,14 +319,7 @@ Example toyH_empty : toyH empty_json = empty_json_digest.
 Proof. reflexivity. Qed.
 
 Example toyH_injective : forall x y, toyH x = toyH y -> x = y.
-Proof.
-  intros x y. unfold toyH.
-  destruct (str_eqb x empty_json) eqn:Ex; destruct (str_eqb y empty_json) eqn:Ey.
-  - apply str_eqb_spec in Ex, Ey. congruence.
-  - discriminate.
-  - discriminate.
-  - now intros [= ->].
-Qed.
+Proof. exact lossy_H_injective. Qed.
 
 (* a marshal that satisfies marshal_perm (it ignores the annotations' order: it drops them) *)
 Example toy_marshal_perm_satisfiable :
@@ -303,11 +374,31 @@ Proof. vm_compute. repeat split; reflexivity. Qed.
 Example ex_rfc3339 :
   RFC3339 (b "2024-02-29T23:59:59.5+07:30") /\ ~ RFC3339 (b "2006-01-02T1:04:05Z") /\
   RFC3339_go (b "2006-01-02T15:04:05Z").
-Proof.
-  split; [apply accepted_is_rfc3339; vm_compute; reflexivity|].
-  split; [intro R; apply RFC3339_shape in R; vm_compute in R; discriminate|].
-  apply rfc3339_ok_spec. vm_compute. reflexivity.
-Qed.
+Proof. exact rfc3339_examples. Qed.
+
+(* other target kinds and a fault plan *)
+Example ex_file_store_named_config :
+  (exists s' d m, pack lossy_marshal lossy_H FV10 (mkTcfg true KFile) None (init_state []) []
+                       (mkOpts None None [] None ex_titled_ann) [50] = (s', Ok d m) /\
+                  map e_name (s_store s') = [b "cfg.json"; []]) /\
+  (exists s', pack lossy_marshal lossy_H FV10 (mkTcfg true KFile) None (init_state [ex_named_entry (b "sha256:other")]) []
+                   (mkOpts None None [] None ex_titled_ann) [50] = (s', Err EInjected) /\ length (s_events s') = 2%nat) /\
+  (exists s' d m, pack lossy_marshal lossy_H FV10 (mkTcfg true KFile) None (init_state [ex_named_entry empty_json_digest]) []
+                       (mkOpts None None [] None ex_titled_ann) [50] = (s', Ok d m) /\ length (s_events s') = 2%nat).
+Proof. exact ex_file_store. Qed.
+
+Example ex_registry_namespaces :
+  stored KNamespace [mkEntry MediaTypeEmptyJSON empty_json_digest 2 empty_json []]
+         (mkDesc MediaTypeImageManifest empty_json_digest 2 [] [] []) = false /\
+  stored KDigest [mkEntry MediaTypeEmptyJSON empty_json_digest 2 empty_json []]
+         (mkDesc MediaTypeImageManifest empty_json_digest 2 [] [] []) = true.
+Proof. exact ex_registry_namespace. Qed.
+
+Example ex_fault :
+  exists s', pack lossy_marshal lossy_H FV11 (mkTcfg true KDigest) (Some 2%nat) (init_state []) (b "application/vnd.example")
+                  (mkOpts None None [] None []) (b "2024-02-29T12:00:00Z") = (s', Err EInjected) /\
+             length (s_events s') = 3%nat /\ length (s_store s') = 1%nat.
+Proof. exact ex_fault_plan. Qed.
 
 Example ex_media_types :
   RFC6838 (b "application/vnd.oci.image.manifest.v1+json") /\ ~ RFC6838 (b "application/x y") /\
